@@ -61,7 +61,8 @@ def run(rep, tier):
              "A->B by compare-exchange with abort on failure, ->C after backend creation; C->D by compare-exchange with abort on failure, ->A; with A,B,C,D pairwise distinct, "
              "C the value every status guard compares against")
     rep.rule("R-C14-guards", "in malloc_in_sandbox, free_in_sandbox (all overloads), unregister_callback and register_callback the status test dominates every backend call with the prescribed outcome (null / ignore / ignore / abort)")
-    rep.rule("R-C14-registry", "the sandbox is appended to the live list only after a successful backend create and removed (existence-checked) before backend destroy, both inside the unique guard; no other function writes the list")
+    rep.rule("R-C14-registry", "the sandbox is appended to the live list only after a successful backend create and removed (existence-checked) before backend destroy, both inside the unique guard; no other function writes the list; "
+             "the lookup from an example address returns only a list element whose memory contains that address (or null)")
     rep.rule("R-C14-fresh", "every per-object container that operations fill (callback_keys, symbol caches) is emptied on the destroy/create cycle")
     backends = ["model32", "model32gi", "noop"] if tier == "quick" else ["model32", "model32gi", "noop", "dylib", "noop_tls", "model32_trans"]
     dbs = facts.load_core(backends, ["INVOKE", "PTR"], thorough=(tier == "thorough"))
@@ -91,6 +92,9 @@ def run(rep, tier):
                     check_create(rep, db, f, inst, vals); cnt("create")
                 elif f["n"] == SB + "::destroy_sandbox":
                     check_destroy(rep, db, f, inst, vals); cnt("destroy")
+                elif f["n"] == SB + "::find_sandbox_from_example":
+                    from .c04 import check_find
+                    check_find(rep, db, f, inst, rule="R-C14-registry"); cnt("find")
             except Inconclusive as ex:
                 rep.inconclusive("R-C14", site(f), str(ex), inst)
         if "INVOKE" in label and {"A", "B", "C", "D", "A2"} <= set(vals):
@@ -127,7 +131,7 @@ def run(rep, tier):
                 continue
             if refs_member(f["body"], "sandbox_list") and f["n"] not in (SB + "::create_sandbox", SB + "::destroy_sandbox", SB + "::find_sandbox_from_example"):
                 rep.violation("R-C14-registry", f["n"] + " [list access]", "%s touches the live-sandbox list" % f["n"], f["loc"], label)
-    floors = {"writers": 8, "create": 3, "destroy": 3, "guard": 30}
+    floors = {"writers": 8, "create": 3, "destroy": 3, "guard": 30, "find": 3}
     for k, v in floors.items():
         rep.require(n.get(k, 0) >= v, "only %d instances for rule group '%s' (floor %d)" % (n.get(k, 0), k, v))
     rep.extra["instances"] = n
